@@ -97,7 +97,23 @@ def _negated_existential_operand(p, v):
     return False
 
 
+def _two_interruption_constraints(p, v):
+    """Two or more interruption constraints on one resource that serves a variable-duration task."""
+    by_res = {}
+    for c in p["cons"]:
+        if c["cls"] in ("ResourceInterrupted", "ResourcePeriodicallyInterrupted"):
+            by_res.setdefault((c["res"]["t"], c["res"]["i"]), []).append(c)
+    for (t, i), cs in by_res.items():
+        if len(cs) < 2:
+            continue
+        units = {i} if t == "worker" else set(p["cumuls"][i - 1]["units"])
+        if any(u["worker"] in units and p["tasks"][u["task"] - 1]["kind"] == "V" for u in p["uses"]):
+            return True
+    return False
+
+
 PREDICATES = {
+    "two_interruption_constraints_on_one_resource": _two_interruption_constraints,
     "negated_existential_operand": _negated_existential_operand,
     "xlsx_row_collision": _xlsx_row_collision,
     # name -> function(problem, violation) -> bool
@@ -128,7 +144,8 @@ def split(prop, violations, known):
     for v in violations:
         hit = None
         for k in known.get("open", []):
-            if k["property"] == prop and matches(v, k):
+            # "also": the other properties whose cross-feature problems can contain the same failing input
+            if (k["property"] == prop or prop in k.get("also", [])) and matches(v, k):
                 hit = k
                 break
         if hit is None:
